@@ -68,14 +68,15 @@ fn scale_line(kind: usize, i: usize) -> String {
         10 => format!("    j U{i}"),
         11 => format!("    jal g{i}"),
         12 => "    add t0, t1".into(),
+        14 => format!("    jal fn{i}"),
         _ => "    .macro".into(),
     }
 }
-const SCALE_KINDS: usize = 14;
+const SCALE_KINDS: usize = 15;
 const SCALE_NAMES: [&str; SCALE_KINDS] = [
     "addi", "push", "call-one-function", "branch+label", "labels", "data-word", "comment", "load",
     "ecall", "unknown-mnemonic", "undefined-labels", "call-many-functions", "missing-operand",
-    "unterminated-macro",
+    "unterminated-macro", "functions-falling-into-each-other",
 ];
 
 fn scale_program(kind: usize, n: usize) -> String {
@@ -92,6 +93,14 @@ fn scale_program(kind: usize, n: usize) -> String {
         for i in 0..n {
             s.push_str(&format!("g{i}:\n    ret\n"));
         }
+    }
+    if kind == 14 {
+        // n called functions, each of which returns or falls into the next one: function i
+        // reaches the returns of the functions i..n
+        for i in 0..n {
+            s.push_str(&format!("fn{i}:\n    beqz a0, skip{i}\n    ret\nskip{i}:\n"));
+        }
+        s.push_str("    ret\n");
     }
     s
 }
@@ -249,7 +258,8 @@ impl C06 {
         let sizes: &[usize] = tier.pick(&[250, 1000], &[250, 1000, 2000]);
         for k in 0..SCALE_KINDS {
             for n in sizes {
-                scale_full.push((k, *n));
+                // (the function family has four lines per repetition)
+                scale_full.push((k, if k == 14 { *n / 2 } else { *n }));
             }
         }
         let ntok = self.tokens.len() as u64;
